@@ -601,6 +601,11 @@ func runSockTimeout(c *mon.Ctx, version primitive.ProtocolVersion, n int, outsta
 	if extra == n-outstanding {
 		c.Count("sock_timeout_refused_at_N/"+v, 1)
 	}
+	// everything that was accepted has to be on the peer's side of the wire before it starts answering
+	if !waitPeer(len(reqs)) {
+		c.Inconclusive("sock/timeout: accepted requests did not reach the peer")
+		return
+	}
 	// the peer finally answers everything; then N new requests can be sent
 	peer.mu.Lock()
 	peer.holdAll = false
@@ -618,6 +623,9 @@ func runSockTimeout(c *mon.Ctx, version primitive.ProtocolVersion, n int, outsta
 	peer.holdAll = true
 	peer.mu.Unlock()
 	var fresh []client.InFlightRequest
+	hb := startHeartbeat()
+	defer close(hb.stop)
+	mark := hb.n.Load()
 	deadline := time.Now().Add(sockTimeoutWait)
 	for len(fresh) < n && time.Now().Before(deadline) {
 		req, err := conn.Send(frame.NewFrame(version, client.ManagedStreamId, &message.Options{}))
@@ -627,7 +635,9 @@ func runSockTimeout(c *mon.Ctx, version primitive.ProtocolVersion, n int, outsta
 		}
 		fresh = append(fresh, req)
 	}
-	if len(fresh) < n {
+	if len(fresh) < n && !hb.healthy(mark, sockTimeoutWait) {
+		c.Inconclusive("sock/timeout: refill incomplete on a stalled box")
+	} else if len(fresh) < n {
 		c.Violation(key("I5/refill-refused-after-late-answers"), detail(fmt.Sprintf(
 			"after the peer answered every request only %d of N=%d new managed sends were accepted within %v", len(fresh), n, sockTimeoutWait)))
 	} else {
